@@ -45,7 +45,7 @@ fn at_code(at: &str) -> u128 {
     match at {
         "CommonHeader" => 1, "AddressHeader" => 2, "PathMeta" => 3, "path" => 4, "TotalHeader" => 5,
         "StdPathMeta" => 6, "StdPathData" => 7, "OneHopPath" => 8, "InfoFieldView" => 9, "HopFieldView" => 10,
-        "UdpHeader" => 11, "ScmpMessageHeader" => 12,
+        "UdpHeader" => 11, "ScmpMessageHeader" => 12, "buf" => 13,
         "ScmpDestinationUnreachable" => 101, "ScmpPacketTooBig" => 102, "ScmpParameterProblem" => 104,
         "ScmpExternalInterfaceDown" => 105, "ScmpInternalConnectivityDown" => 106, "ScmpEchoRequest" => 228,
         "ScmpEchoReply" => 229, "ScmpTracerouteRequest" => 230, "ScmpTracerouteReply" => 231,
@@ -278,6 +278,80 @@ fn mut_scmp(cx: &mut Ctx, id: u64, arg: u64, val: u64, v: &mut ScmpPayloadView) 
     match id { 0 => v.set_code(val as u8), 1 => v.set_checksum(val as u16), 10..=29 => mut_msg(cx, id - 10, arg, val, v.message_mut()), _ => {} }
 }
 
+// ---------------------------------------------------------------- constructor families
+/// one observation: (family, arg, (class, numbers)); numbering = Views.run_ctor
+type CObs = (u64, u64, (u64, Vec<u128>));
+fn cres(r: std::thread::Result<Result<Vec<u128>, VE>>) -> (u64, Vec<u128>) {
+    match r { Err(_) => (99, vec![]), Ok(Err(e)) => (0, err_list(&e)), Ok(Ok(l)) => (1, l) }
+}
+fn owned_lens<T: View + ?Sized>(bx: Box<T>) -> Vec<u128> {
+    let reported = bx.as_slice().len() as u128;
+    let owned = bx.as_slice_boxed().len() as u128;
+    vec![reported, owned]
+}
+/// every constructor family of the `View` trait on `buf`; `dsts` = destination sizes for copy_to_slice
+fn boxed_exact_probe() -> bool {
+    static P: std::sync::OnceLock<bool> = std::sync::OnceLock::new();
+    *P.get_or_init(|| {
+        // seg0 = 1: 4 + 8 + 12 = 24 bytes required, 25 given
+        let mut b = vec![0u8; 25]; b[2] = 0x10;
+        StandardPathView::has_required_size(&b).ok() == Some(24) && StandardPathView::try_from_boxed(b.into_boxed_slice()).is_err()
+    })
+}
+fn ctor_obs<T: View + ?Sized>(buf: &[u8], dsts: &[usize], fixed: bool) -> Vec<CObs> {
+    let mut out: Vec<CObs> = vec![];
+    // 0: try_from_slice
+    out.push((0, 0, cres(catch_unwind(AssertUnwindSafe(|| T::try_from_slice(buf).map(|(v, rest)| {
+        let (a, _) = rel(buf, v.as_slice()); let (c, _) = rel(buf, rest);
+        vec![v.as_slice().len() as u128, rest.len() as u128, a, c] }))))));
+    // 1: try_from_mut_slice (on a copy)
+    out.push((1, 0, cres(catch_unwind(AssertUnwindSafe(|| { let mut m = buf.to_vec(); let base = m.as_ptr() as usize;
+        T::try_from_mut_slice(&mut m).map(|(v, rest)| {
+            let a = (v.as_slice().as_ptr() as usize).wrapping_sub(base) as u128; let c = (rest.as_ptr() as usize).wrapping_sub(base) as u128;
+            vec![v.as_slice().len() as u128, rest.len() as u128, a, c] }) })))));
+    // 2: try_from_boxed: the box is the WHOLE input.  Guard: a fixed-size view reinterprets the box as
+    // Box<[u8; N]> unchecked, so if the exact-size check is gone (probed once on a slice-backed view)
+    // calling it with another length would be undefined behaviour IN THE HARNESS: report class 97.
+    let would_be_ub = fixed && !boxed_exact_probe() && T::has_required_size(buf).map(|n| n != buf.len()).unwrap_or(false);
+    if would_be_ub { out.push((2, 0, (97, vec![]))); } else {
+    out.push((2, 0, cres(catch_unwind(AssertUnwindSafe(|| T::try_from_boxed(buf.to_vec().into_boxed_slice()).map(owned_lens))))));
+    }
+    // 3: to_boxed of the borrowed view
+    out.push((3, 0, cres(catch_unwind(AssertUnwindSafe(|| T::try_from_slice(buf).map(|(v, _)| owned_lens(v.to_boxed())))))));
+    // 4: copy_to_slice of the borrowed view into `d` bytes
+    for &d in dsts {
+        out.push((4, d as u64, cres(catch_unwind(AssertUnwindSafe(|| T::try_from_slice(buf).and_then(|(v, _)| { let mut dst = vec![0x5au8; d];
+            v.copy_to_slice(&mut dst).map(|(w, rest)| vec![w.as_slice().len() as u128, rest.len() as u128, (w.as_slice() == v.as_slice()) as u128]) }))))));
+    }
+    out
+}
+fn ctor_case(k: K, buf: &[u8], n_hint: usize) -> Vec<CObs> {
+    let dsts = [n_hint.saturating_sub(1), n_hint, n_hint + 5];
+    let mut v = match k {
+        K::Header => ctor_obs::<ScionHeaderView>(buf, &dsts, false), K::Std => ctor_obs::<StandardPathView>(buf, &dsts, false),
+        K::OneHop => ctor_obs::<OneHopPathView>(buf, &dsts, true), K::Info => ctor_obs::<InfoFieldView>(buf, &dsts, true),
+        K::Hop => ctor_obs::<HopFieldView>(buf, &dsts, true), K::Raw => ctor_obs::<ScionRawPacketView>(buf, &dsts, false),
+        K::UdpPkt => ctor_obs::<ScionUdpPacketView>(buf, &dsts, false), K::ScmpPkt => ctor_obs::<ScionScmpPacketView>(buf, &dsts, false),
+        K::Udp => ctor_obs::<UdpDatagramView>(buf, &dsts, false), K::Scmp => ctor_obs::<ScmpPayloadView>(buf, &dsts, false),
+        K::Msg(1) => ctor_obs::<ScmpDestinationUnreachableMessageView>(buf, &dsts, false), K::Msg(2) => ctor_obs::<ScmpPacketTooBigMessageView>(buf, &dsts, false),
+        K::Msg(4) => ctor_obs::<ScmpParameterProblemMessageView>(buf, &dsts, false), K::Msg(5) => ctor_obs::<ScmpExternalInterfaceDownMessageView>(buf, &dsts, false),
+        K::Msg(6) => ctor_obs::<ScmpInternalConnectivityDownMessageView>(buf, &dsts, false), K::Msg(128) => ctor_obs::<ScmpEchoRequestMessageView>(buf, &dsts, false),
+        K::Msg(129) => ctor_obs::<ScmpEchoReplyMessageView>(buf, &dsts, false), K::Msg(130) => ctor_obs::<ScmpTracerouteRequestMessageView>(buf, &dsts, false),
+        K::Msg(131) => ctor_obs::<ScmpTracerouteReplyMessageView>(buf, &dsts, false), K::Msg(_) => ctor_obs::<ScmpUnknownMessageView>(buf, &dsts, false),
+    };
+    // owned packet conversions
+    match k {
+        K::Raw => {
+            v.push((5, 0, cres(catch_unwind(AssertUnwindSafe(|| ScionRawPacketView::try_from_boxed(buf.to_vec().into_boxed_slice()).and_then(|b| b.try_into_udp()).map(owned_lens))))));
+            v.push((6, 0, cres(catch_unwind(AssertUnwindSafe(|| ScionRawPacketView::try_from_boxed(buf.to_vec().into_boxed_slice()).and_then(|b| b.try_into_scmp()).map(owned_lens))))));
+        }
+        K::UdpPkt => v.push((7, 0, cres(catch_unwind(AssertUnwindSafe(|| ScionUdpPacketView::try_from_boxed(buf.to_vec().into_boxed_slice()).map(|b| owned_lens(b.into_raw()))))))),
+        K::ScmpPkt => v.push((7, 0, cres(catch_unwind(AssertUnwindSafe(|| ScionScmpPacketView::try_from_boxed(buf.to_vec().into_boxed_slice()).map(|b| owned_lens(b.into_raw()))))))),
+        _ => {}
+    }
+    v
+}
+
 // ---------------------------------------------------------------- view dispatch
 #[derive(Clone, Copy, PartialEq, Debug)]
 enum K { Header, Std, OneHop, Info, Hop, Raw, UdpPkt, ScmpPkt, Udp, Scmp, Msg(u16) }
@@ -426,11 +500,13 @@ fn mut_ids(k: K) -> Vec<u64> {
 
 enum Op { A(u64, u64, Option<AV>), M(u64, u64, u64, bool), L(u64, u64, u64, bool) }
 
-struct CaseOut { kind: K, buf: Vec<u8>, res: (u64, Vec<u128>), ops: Vec<Op>, fin: Vec<u8>, abs: Vec<(u128, u128)>, tag: String }
+struct CaseOut { kind: K, buf: Vec<u8>, res: (u64, Vec<u128>), ops: Vec<Op>, fin: Vec<u8>, abs: Vec<(u128, u128)>, ctors: Vec<CObs>, tag: String }
 
 fn run_case(k: K, buf: &[u8], plan: &[PlanOp], tag: &str) -> CaseOut {
     let r = catch_unwind(AssertUnwindSafe(|| required(k, buf)));
-    let mut out = CaseOut { kind: k, buf: buf.to_vec(), res: (99, vec![]), ops: vec![], fin: vec![], abs: vec![], tag: tag.into() };
+    let mut out = CaseOut { kind: k, buf: buf.to_vec(), res: (99, vec![]), ops: vec![], fin: vec![], abs: vec![], ctors: vec![], tag: tag.into() };
+    // every constructor family on the same input (also when the size function refuses it)
+    out.ctors = ctor_case(k, buf, match &r { Ok(Ok(n)) => *n, _ => buf.len() });
     let n = match r {
         Err(_) => return out,
         Ok(Err(e)) => { out.res = (0, err_list(&e)); return out; }
@@ -549,7 +625,13 @@ fn emit(sh: &mut Shards, sum: &mut Summary, seen: &mut std::collections::HashSet
     }));
     let res = format!("({},{})", c.res.0, coq_list(c.res.1.iter().map(|x| x.to_string())));
     let abs = coq_list(c.abs.iter().map(|(a, b)| format!("({a},{b})")));
-    let case = format!("mkVC {} {} {} {} {} {}", c.kind.code(), coq_rle(&c.buf), res, ops, coq_rle(&c.fin), abs);
+    let ctors = coq_list(c.ctors.iter().map(|(f, a, (cl, l))| format!("CO {f} {a} ({cl},{})", coq_list(l.iter().map(|x| x.to_string())))));
+    let nctor_ok = c.ctors.iter().filter(|(_, _, (cl, _))| *cl == 1).count();
+    sum.add("ctor_calls", c.ctors.len() as u64);
+    sum.add("ctor_ok", nctor_ok as u64);
+    if c.ctors.iter().any(|(f, _, (cl, _))| *f == 2 && *cl == 1) { sum.count("boxed.accepted"); }
+    if c.ctors.iter().any(|(f, _, (cl, l))| *f == 2 && *cl == 0 && l == &vec![2u128, 6]) { sum.count("boxed.rejected_size_mismatch"); }
+    let case = format!("mkVC {} {} {} {} {} {} {}", c.kind.code(), coq_rle(&c.buf), res, ops, coq_rle(&c.fin), abs, ctors);
     let npanic = c.ops.iter().filter(|o| matches!(o, Op::A(_, _, None) | Op::M(_, _, _, true) | Op::L(_, _, _, true))).count();
     let human = format!("{} kind={:?} len={} result=({},{:?}) ops={} panics={} hex={}", c.tag, c.kind, c.buf.len(), c.res.0, c.res.1, c.ops.len(), npanic,
         c.buf.iter().take(96).map(|x| format!("{x:02x}")).collect::<String>());
@@ -565,6 +647,36 @@ fn emit(sh: &mut Shards, sum: &mut Summary, seen: &mut std::collections::HashSet
 
 fn kinds_for(buf_kind: u8) -> Vec<K> {
     match buf_kind { 0 => vec![K::Header, K::Raw, K::UdpPkt, K::ScmpPkt], _ => vec![] }
+}
+
+/// directed inputs for the constructor families: for every view kind a buffer of exactly the
+/// required size, the same one byte short, and the same with 1 / 3 / 17 / 4099 trailing bytes
+fn directed_ctor_inputs() -> Vec<(K, Vec<u8>, String)> {
+    let mut bases: Vec<(K, Vec<u8>)> = vec![];
+    for pt in [0u8, 1, 2] {
+        let mk = |nh: u8, pl: Vec<u8>| Spec { ver: 0, pt, dt: 0, st: 3, segs: (2, 1, 0), hl_delta: 0, nh, pl, pl_delta: 0, curr: (0, 1), fill: 7 };
+        let (b, m) = build(&mk(6, vec![9; 9]));
+        if pt == 1 { bases.push((K::Header, b.clone())); bases.push((K::Std, b[m[2]..m[m.len() - 7]].to_vec())); }
+        if pt == 2 { bases.push((K::OneHop, b[m[2]..m[m.len() - 7]].to_vec())); }
+        bases.push((K::Raw, b));
+        bases.push((K::UdpPkt, build(&mk(17, udp_payload(i32::MIN, 4, 7))).0));
+        bases.push((K::ScmpPkt, build(&mk(202, scmp_payload(128, 12, None))).0));
+    }
+    bases.push((K::Info, vec![1, 0, 0x11, 0x22, 0x65, 0, 0, 1, 0xee, 0xee]));
+    bases.push((K::Hop, vec![0, 63, 0, 1, 0, 2, 1, 2, 3, 4, 5, 6, 0xee, 0xee]));
+    bases.push((K::Udp, udp_payload(i32::MIN, 5, 3)));
+    for &t in &SCMP_T { bases.push((K::Scmp, scmp_payload(t, 30, None))); bases.push((K::Msg(t as u16), scmp_payload(t, 30, None))); }
+    let mut out = vec![];
+    for (k, cand) in bases {
+        let n = match required(k, &cand) { Ok(n) if n <= cand.len() => n, _ => cand.len() };
+        let exact = cand[..n].to_vec();
+        out.push((k, exact[..n.saturating_sub(1)].to_vec(), "ctor:short1".to_string()));
+        for extra in [0usize, 1, 3, 17, 4099] {
+            let mut b = exact.clone(); b.extend(std::iter::repeat(0xaau8).take(extra));
+            out.push((k, b, format!("ctor:exact+{extra}")));
+        }
+    }
+    out
 }
 
 fn main() {
@@ -585,6 +697,10 @@ fn main() {
         // consistency x truncation points at field boundaries +-1; sampled down to n buffers
         // (the full product has ~10^7 elements); construction results only
         let mut count = 0usize;
+        for (k, b, tag) in directed_ctor_inputs() {
+            emit(&mut sh, &mut sum, &mut seen, run_case(k, &b, &[], &tag));
+            count += 1;
+        }
         'outer: loop {
             for &pt in &PTS {
                 let dt = rng.below(16) as u8; let st = rng.below(16) as u8;
